@@ -73,6 +73,8 @@ type Exec struct {
 	funcs           map[string]bool
 	env             *Env
 	boundReported   bool
+	undo            []func()
+	globalWrites    int
 	randomDraws     [][]*Term
 	pathStart       time.Time
 	frames          []*Frame
